@@ -117,6 +117,49 @@ def guard_ok(cond, x):
     return lo and hi, "; ".join(why)
 
 
+def exclusion_ok(cond, x):
+    """the else-branch of `if cond`: (not cond) implies -2^63 <= x < 2^63.  cond must be a disjunction that is true for
+    NaN, for x >= 2^63 and for x < -2^63 (comparisons alone are all false for NaN, so a NaN test is required)."""
+    dis = []
+
+    def flat(c):
+        if isinstance(c, tuple) and c and c[0] == "op" and c[1] == "or":
+            flat(c[3])
+            flat(c[4])
+        else:
+            dis.append(c)
+    flat(cond)
+    if len(dis) < 2:
+        return False, ""
+    hi = lo = nan = False
+    for c in dis:
+        if c in (("call", "f64::is_nan", x), ("op", "ne", "f64", x, x), ("un", "not", "bool", ("call", "f64::is_finite", x))):
+            nan = True
+            continue
+        if not (isinstance(c, tuple) and len(c) == 5 and c[0] == "op" and c[2] == "f64"):
+            continue
+        op, l, r = c[1], c[3], c[4]
+        if r == x:
+            op, l, r = {"lt": "gt", "le": "ge", "gt": "lt", "ge": "le"}.get(op, op), r, l
+        if l != x:
+            continue
+        k = fold_f64(r)
+        if k is None:
+            continue
+        if (op == "ge" and k <= TWO63) or (op == "gt" and k < TWO63):
+            hi = True
+        if (op == "lt" and k >= -TWO63) or (op == "le" and k >= -TWO63):
+            lo = True
+    why = []
+    if not nan:
+        why.append("early-exit disjunction has no NaN test: every comparison is false for NaN, which is then cast (to 0)")
+    if not hi:
+        why.append("no exclusion of x >= 2^63")
+    if not lo:
+        why.append("no exclusion of x < -2^63")
+    return nan and hi and lo, "; ".join(why)
+
+
 def cast_guard_rule(run, term, wherestr, keyprefix):
     n = [0]
 
@@ -134,6 +177,11 @@ def cast_guard_rule(run, term, wherestr, keyprefix):
                     ok, why = guard_ok(p[1], x)
                     if ok:
                         break
+                if p[0] == "if" and len(p) == 4 and i == 3:
+                    ok, why2 = exclusion_ok(p[1], x)
+                    if ok:
+                        break
+                    why = why2 or why
             run.ob(ok, "%s|cast-guard" % keyprefix, "C09/C18 cast-guard: `x as i64` that becomes an Integer is dominated by -2^63 <= x and x < 2^63 (strict) on the same x", wherestr,
                    "cast of %s: %s" % (T.show(x)[:80], why), sample={"site": keyprefix, "cast_operand": T.show(x)[:60], "guard": "[-2^63, 2^63)"})
     walk_ctx(term, v)
@@ -194,10 +242,10 @@ def main(tier):
     for name, mth in (("floor(", "floor"), ("ceil(", "ceil"), ("round(", "round")):
         ob("I|%s" % name, "fn", name, INT, None, ["(Ok (I (a)))"], "C09 rounding an Integer returns it")
         R = "(call f64::%s (a))" % mth
-        ob("F|%s" % name, "fn", name, FLT, None, ["(if _ (Ok (I (cast f64 i64 %s))) (Ok %s))" % (R, NV(R)), "(Ok (N %s))" % R],
+        ob("F|%s" % name, "fn", name, FLT, None, ["(if _ (Ok (I (cast f64 i64 %s))) (Ok %s))" % (R, NV(R)), "(if _ (Ok %s) (Ok (I (cast f64 i64 %s))))" % (NV(R), R), "(Ok (N %s))" % R],
            "C09 floor/ceil/round of a Float: the rounded value itself, as Integer when it fits (guard checked separately)")
     ob("I|trunc(", "fn", "trunc(", INT, None, ["(Ok (I (a)))"], "C09 trunc of an Integer")
-    ob("F|trunc(", "fn", "trunc(", FLT, None, ["(Ok (N (call f64::trunc (a))))", "(if _ (Ok (I (cast f64 i64 (call f64::trunc (a))))) (Ok %s))" % NV("(call f64::trunc (a))")], "C09 trunc of a Float")
+    ob("F|trunc(", "fn", "trunc(", FLT, None, ["(Ok (N (call f64::trunc (a))))", "(if _ (Ok (I (cast f64 i64 (call f64::trunc (a))))) (Ok %s))" % NV("(call f64::trunc (a))"), "(if _ (Ok %s) (Ok (I (cast f64 i64 (call f64::trunc (a))))))" % NV("(call f64::trunc (a))")], "C09 trunc of a Float")
     # premise: Number::from(f64) (the `N` wrapper above) preserves the numeric value  (C18)
     from .c18 import from_f64_ok
     okf, why, _ = from_f64_ok(F, m)
